@@ -236,6 +236,65 @@ def eval_text_cases(ctx, texts, shards=8):
     return codes
 
 
+def wide_instance(r):
+    """a larger instance without instructors (outside class TC): 5-7 small courses filled exactly by their own participants, 2-3 large ones,
+    nearly enough large rooms and one or two tiny ones -- the room stage has to choose among many equally ranked courses (selection window
+    MIN_K / MAX_N / MAX_NTOK of check_room_feasibility)"""
+    ns, nb = r.randint(5, 7), r.randint(2, 3)
+    m = r.randint(2, 4)
+    courses, parts = [], []
+    big = list(range(ns, ns + nb))
+    for c in range(ns):
+        mm = m if r.random() < 0.8 else r.randint(2, 4)
+        courses.append({"name": "S%d" % c, "num_min": mm, "num_max": mm + (0 if r.random() < 0.7 else 1), "instructors": []})
+        for i in range(mm):
+            parts.append({"name": "s%d_%d" % (c, i), "choices": [{"course": c, "penalty": 0}, {"course": r.choice(big), "penalty": r.randint(2, 20)}]})
+    for b in big:
+        courses.append({"name": "B%d" % b, "num_min": 1, "num_max": r.randint(10, 14), "instructors": []})
+        for i in range(r.randint(3, 6)):
+            o = r.choice([x for x in big if x != b])
+            parts.append({"name": "b%d_%d" % (b, i), "choices": [{"course": b, "penalty": 0}, {"course": o, "penalty": r.randint(1, 3)}]})
+    nc = ns + nb
+    rooms = [r.randint(12, 16) for _ in range(nc - r.randint(1, 2))] + [r.randint(1, m) for _ in range(r.randint(1, 2))]
+    r.shuffle(rooms)
+    return {"format": "X-coursedata-simple", "version": "1.0", "participants": parts, "courses": courses}, rooms
+
+
+def run_wide_family(ctx, binpath, seed, count, threads=(1, 6, 16)):
+    """runs the binary on `count` wide instances with each thread count; returns [(instance, rooms, {threads: (exit, score)})]"""
+    import random
+    from concurrent.futures import ThreadPoolExecutor
+    d = os.path.join(ctx.work, "wide")
+    os.makedirs(d, exist_ok=True)
+    r = random.Random(seed)
+    tasks = []
+    for k in range(count):
+        inst, rooms = wide_instance(r)
+        f = os.path.join(d, "wide_%03d.json" % k)
+        json.dump(inst, open(f, "w"))
+        tasks.append((k, inst, rooms, f))
+
+    def work(t):
+        k, inst, rooms, f = t
+        outs = {}
+        for th in threads:
+            o = os.path.join(d, "wide_out_%03d_%d.json" % (k, th))
+            if os.path.exists(o):
+                os.remove(o)
+            run = run_bin(binpath, ["--num-threads", str(th), "--rooms", ",".join(map(str, rooms)), f, o])
+            sc = None
+            if run["rc"] == 0:
+                try:
+                    sc = json.load(open(o))["quality"]["solution_score"]
+                except Exception:
+                    sc = "unreadable output"
+            outs[th] = (run["rc"], sc)
+        return (inst, rooms, outs)
+
+    with ThreadPoolExecutor(max_workers=8) as ex:
+        return list(ex.map(work, tasks))
+
+
 def parse_output_file(path):
     """returns (assignment, score, qmax, qbits, qmaxbits) or a string (why it is not a well-formed simple-format output)"""
     try:
